@@ -82,7 +82,7 @@ Definition t_batch_more (rest : option item) (b : part) (ps : list part) (x : de
   x <| d_part := rest |> <| d_inprog := Some (IBatch b ps) |>.
 Definition t_reserved (o : option nat) (x : dev) : dev := x <| d_reserved := o |>.
 Definition t_waiting_res (b : bool) (x : dev) : dev := x <| d_waiting_res := b |>.
-Definition t_accept (nw : Z) (it : item) (x : dev) : dev := dev_set_wait nw false false (x <| d_part := Some it |>).
+Definition t_accept (nw : Z) (it : item) (x : dev) : dev := dev_set_wait nw false false (x <| d_part := Some it |> <| d_accepts ::= Z.add 1 |>).
 (** a PartProcessor starts the utilisation clock when it takes a part (_try_move_part_to_output, reached
     from _accept_part whenever the part was accepted: operational, output slot empty) *)
 Definition t_accept_proc (nw : Z) (it : item) (x : dev) : dev := (t_accept nw it x) <| d_last_use := Some nw |>.
